@@ -1,0 +1,15 @@
+//go:build !verif
+
+package verifhook
+
+// Lock is called immediately before a lock guarding library state is taken.
+func Lock(obj any) {}
+
+// Unlocked is called immediately after that lock has been released.
+func Unlocked(obj any) {}
+
+// Go is called as the first statement of a library goroutine.
+func Go(kind string, obj any) {}
+
+// Atomic is called between two steps of lock-free code.
+func Atomic(kind string, obj any) {}
